@@ -392,6 +392,9 @@ func genC08Args(t *rapid.T, s vScenario) ([]string, map[string]string) {
 				c = append(c, fl)
 			}
 		}
+		if rapid.IntRange(0, 3).Draw(t, "oldshorten") == 0 {
+			c = append(c, "--use-old-reg-reporter", "--shorten")
+		}
 		switch rapid.IntRange(0, 5).Draw(t, "regmode") {
 		case 0:
 			c = append(c, "-s", x)
@@ -484,5 +487,5 @@ func init() { vRegister("C08", "c08.random", checkC08) }
 func TestVerifC08Random(t *testing.T) {
 	vRapid(t, "C08", "c08.random",
 		"valid books/logs with 0-6 grammar-aware mutations per file (24 kinds: degenerate notes and entries, truncated line, dropped value, NaN/Inf/1e400/hex/empty numbers, stray separators, invalid UTF-8, NUL, BOM, CR-only, 70 KiB line, empty file, comments only, entries before any heading, duplicate headings, cycles of length 1/2/6, chains 12/300/2000 deep, 1e308 values, 1000x repeated lines, 500-entry recipes) x every command and sub-command with drawn flag shapes (short/long/= forms, env vs flag, global vs sub-command periods from a dictionary of dates, keywords, natural-language phrases and garbage, --maxdepth 0..1e8, odd --date-format, invalid regexps, --no-database, missing paths, directories, missing arguments, unknown flags); in process (recovered panic = failure, 60 s watchdog) and 1/15 through the real binary (no signal, no runtime trace, same verdict, message on failure); non-trivial = at least one mutation and both files non-empty",
-		vBudget(12000, 320000), genC08, checkC08)
+		vBudget(40000, 480000), genC08, checkC08)
 }
